@@ -3,6 +3,8 @@ package main
 import (
 	"fmt"
 	"go/token"
+	"go/types"
+	"sort"
 	"strings"
 
 	"golang.org/x/tools/go/ssa"
@@ -46,6 +48,12 @@ func checkC20(c *Ctx) {
 		return out
 	}
 	vp := methods(vpOwner)
+	// the unexported fields are identified by what the exported getters return, not by their names:
+	// Size() -> width, height; GetContentSize() -> limx, limy; GetPhysical() -> physx, physy, …;
+	// GetVisible() -> viewx, viewy, …; the parent is the field of interface type View
+	vn = vpFieldRoles(p, vp)
+	cn := func(fn *ssa.Function, s string) string { return vpCanon(fn, s) }
+	_ = cn
 	c20ResizeClip(c, p, vp["Resize"])
 	bl := methods(blOwner)
 	if len(vp) < 15 || len(bl) < 10 {
@@ -67,9 +75,9 @@ func checkC20(c *Ctx) {
 		if strings.HasPrefix(name, "ValidateView") {
 			continue
 		}
-		for _, ax := range []struct{ field, axis string }{{"viewx", "X"}, {"viewy", "Y"}} {
-			for i, st := range storesTo(fn, vpOwner, ax.field) {
-				key := fmt.Sprintf("%s:%s-store#%d", name, ax.field, i+1)
+		for _, ax := range []struct{ role, axis string }{{"viewx", "X"}, {"viewy", "Y"}} {
+			for i, st := range storesTo(fn, vpOwner, vn[ax.role]) {
+				key := fmt.Sprintf("%s:%s-store#%d", name, ax.role, i+1)
 				if k, isC := constInt(st.Val); isC && k == 0 {
 					c.Trivial("C20-R1", key, p.pos(st.Pos()), "stores the constant 0, which is inside every clamp")
 					continue
@@ -82,13 +90,14 @@ func checkC20(c *Ctx) {
 		// (the auto-grow of the limits in SetContent only ever raises lim-size, which cannot invalidate the
 		// upper clamp; it is not listed)
 		if name == "SetContentSize" || name == "SetSize" || name == "Resize" {
-			for _, f := range []string{"limx", "limy", "width", "height"} {
+			for _, role := range []string{"limx", "limy", "width", "height"} {
+				f := vn[role]
 				for i, st := range storesTo(fn, vpOwner, f) {
 					all := map[ssa.Instruction]bool{}
 					for _, call := range callsIn(fn, func(n string, _ *ssa.CallCommon) bool { return strings.HasSuffix(n, "ViewPort).ValidateView") }) {
 						all[call] = true
 					}
-					c.Check(!existsPathAvoiding(st, all), "C20-R1", fmt.Sprintf("%s:%s-store#%d", name, f, i+1), p.pos(st.Pos()), "followed by ValidateView on every path to the return")
+					c.Check(!existsPathAvoiding(st, all), "C20-R1", fmt.Sprintf("%s:%s-store#%d", name, role, i+1), p.pos(st.Pos()), "followed by ValidateView on every path to the return")
 				}
 			}
 		}
@@ -100,7 +109,10 @@ func checkC20(c *Ctx) {
 			c.Undecided("C20-R1", ax.name, "-", "not found")
 			continue
 		}
-		at := atomsOf(fn)
+		at := map[string]bool{}
+		for a := range atomsOf(fn) {
+			at[vpCanon(fn, a)] = true
+		}
 		hi, lo := false, false
 		for a := range at {
 			if strings.Contains(a, "v."+ax.v) && strings.Contains(a, "(v."+ax.lim+"-v."+ax.size+")") && (strings.Contains(a, " > ") || strings.Contains(a, " < ")) {
@@ -112,7 +124,7 @@ func checkC20(c *Ctx) {
 		}
 		// the upper clamp is applied before the lower one, so a content smaller than the view ends at 0
 		order := false
-		sts := storesTo(fn, vpOwner, ax.v)
+		sts := storesTo(fn, vpOwner, vn[ax.v])
 		if len(sts) == 2 {
 			var upper, lower *ssa.Store
 			for _, s := range sts {
@@ -123,6 +135,47 @@ func checkC20(c *Ctx) {
 				}
 			}
 			if upper != nil && lower != nil && reachableAfter(upper, lower) && !reachableAfter(lower, upper) {
+				order = true
+			}
+		}
+		if !order && len(sts) >= 2 {
+			// the same decision written as exclusive cases: 0 where lim-size < 0 or view < 0, lim-size where
+			// view > lim-size and lim-size >= 0
+			last := "(v." + ax.lim + "-v." + ax.size + ")"
+			view := "v." + ax.v
+			okAll, zeroNeg, upper := true, false, false
+			for _, st := range sts {
+				var as []string
+				for _, a := range guardsAt(st.Block()) {
+					as = append(as, vpCanon(fn, a.String()))
+				}
+				hasA := func(alts ...string) bool {
+					for _, a := range as {
+						for _, w := range alts {
+							if a == w {
+								return true
+							}
+						}
+					}
+					return false
+				}
+				if k, isC := constInt(st.Val); isC && k == 0 {
+					switch {
+					case hasA(last+" < 0", "0 > "+last):
+						zeroNeg = true
+					case hasA(view+" < 0", "0 > "+view) && hasA(last+" >= 0", "0 <= "+last):
+					default:
+						okAll = false
+					}
+					continue
+				}
+				if vpCanon(fn, valName(st.Val)) == last && hasA(view+" > "+last, last+" < "+view) && hasA(last+" >= 0", "0 <= "+last) {
+					upper = true
+					continue
+				}
+				okAll = false
+			}
+			if okAll && zeroNeg && upper {
 				order = true
 			}
 		}
@@ -143,7 +196,7 @@ func checkC20(c *Ctx) {
 		has := func(want ...string) bool {
 			for _, a := range g {
 				for _, w := range want {
-					if a.String() == w {
+					if vpCanon(sc, a.String()) == w {
 						return true
 					}
 				}
@@ -158,7 +211,7 @@ func checkC20(c *Ctx) {
 		}
 		c.Check(inside, "C20-R2", "SetContent:window-tests", p.pos(parent.Pos()), "parent call guarded by: "+strings.Join(gs, " ∧ "))
 		cc := callCommon(parent)
-		ax, ay := valName(cc.Args[0]), valName(cc.Args[1])
+		ax, ay := vpCanon(sc, valName(cc.Args[0])), vpCanon(sc, valName(cc.Args[1]))
 		c.Check(ax == "((x-v.viewx)+v.physx)" && ay == "((y-v.viewy)+v.physy)", "C20-R2", "SetContent:translation", p.pos(parent.Pos()), fmt.Sprintf("parent coordinates %s, %s", ax, ay))
 		// nil parent guard
 		c.Check(has("v.v != nil", "nil != v.v"), "C20-R2", "SetContent:nil-parent", p.pos(parent.Pos()), "no call on a nil parent")
@@ -167,14 +220,15 @@ func checkC20(c *Ctx) {
 	okFill := false
 	eachInstr(fill, func(in ssa.Instruction) {
 		if cc := callCommon(in); cc != nil && cc.IsInvoke() && cc.Method.Name() == "SetContent" {
-			ax, ay := valName(cc.Args[0]), valName(cc.Args[1])
+			ax, ay := vpCanon(fill, valName(cc.Args[0])), vpCanon(fill, valName(cc.Args[1]))
 			g := guardsAt(in.Block())
 			bx, by := false, false
 			for _, a := range g {
-				if a.String() == "v.width > x" || a.String() == "x < v.width" {
+				as := vpCanon(fill, a.String())
+				if as == "v.width > x" || as == "x < v.width" {
 					bx = true
 				}
-				if a.String() == "v.height > y" || a.String() == "y < v.height" {
+				if as == "v.height > y" || as == "y < v.height" {
 					by = true
 				}
 			}
@@ -340,6 +394,7 @@ func checkC20(c *Ctx) {
 			continue
 		}
 		const cellOwner = "views.boxLayoutCell"
+		fn = layoutHost(p, fn, cellOwner) // the distribution may live in a helper shared by both orientations
 		fieldOf := func(v ssa.Value, name string) bool {
 			ref, _, ok := loadedField(stripConv(v))
 			return ok && ref.Owner == cellOwner && ref.Name == name
@@ -380,9 +435,28 @@ func checkC20(c *Ctx) {
 				}
 			}
 		}
+		residPhis := remainderCounters(fn)
 		eachInstr(fn, func(in ssa.Instruction) {
 			if sb, ok := in.(*ssa.BinOp); ok && sb.Op == token.SUB && fieldOf(sb.Y, "pad") {
-				if phi, isPhi := sb.X.(*ssa.Phi); isPhi && phi.Comment == "resid" {
+				// the result feeds the counter of the remainder loop
+				seen := map[ssa.Value]bool{}
+				var feeds func(v ssa.Value, d int) bool
+				feeds = func(v ssa.Value, d int) bool {
+					if d > 6 || seen[v] {
+						return false
+					}
+					seen[v] = true
+					if residPhis[v] {
+						return true
+					}
+					for _, r := range referrers(v.(ssa.Instruction).(ssa.Value)) {
+						if phi, isPhi := r.(*ssa.Phi); isPhi && feeds(phi, d+1) {
+							return true
+						}
+					}
+					return false
+				}
+				if feeds(sb, 0) {
 					residSub = true
 				}
 			}
@@ -469,19 +543,12 @@ func checkC20(c *Ctx) {
 			c.Undecided("C20-R4", name, "-", "not found")
 			continue
 		}
-		// the loop: header with a phi `resid` compared > 0
+		// the loop: header with a phi (the remainder counter) compared > 0, wherever it lives
+		fn = layoutHost(p, fn, "views.boxLayoutCell")
 		var resid *ssa.Phi
-		for h := range loopsOf(fn) {
-			for _, in := range h.Instrs {
-				if phi, ok := in.(*ssa.Phi); ok && phi.Comment == "resid" {
-					for _, r := range referrers(phi) {
-						if bo, ok := r.(*ssa.BinOp); ok && bo.Op == token.GTR {
-							if k, ok := constInt(bo.Y); ok && k == 0 {
-								resid = phi
-							}
-						}
-					}
-				}
+		for v := range remainderCounters(fn) {
+			if phi, ok := v.(*ssa.Phi); ok {
+				resid = phi
 			}
 		}
 		if resid == nil {
@@ -607,7 +674,7 @@ func c20ResizeClip(c *Ctx, p *Prog, fn *ssa.Function) {
 		org   *ssa.Parameter
 		ext   *ssa.Parameter
 	}{{"width", fn.Params[1], fn.Params[3]}, {"height", fn.Params[2], fn.Params[4]}} {
-		sts := storesTo(fn, vpOwner, dim.field)
+		sts := storesTo(fn, vpOwner, vn[dim.field])
 		ok := len(sts) == 1
 		detail := ""
 		if ok {
@@ -644,4 +711,148 @@ func c20ResizeClip(c *Ctx, p *Prog, fn *ssa.Function) {
 		}
 		c.Check(ok, "C20-R5", "Resize:"+dim.field+"-clip", p.pos(fn.Pos()), "v."+dim.field+" is the requested extent or parent extent minus the requested origin "+detail)
 	}
+}
+
+// vn: role -> actual name of the ViewPort's unexported fields (set by vpFieldRoles).
+var vn = map[string]string{"viewx": "viewx", "viewy": "viewy", "limx": "limx", "limy": "limy", "physx": "physx", "physy": "physy", "width": "width", "height": "height", "parent": "v"}
+
+// vpFieldRoles identifies the fields by what the exported getters hand out.
+func vpFieldRoles(p *Prog, vp map[string]*ssa.Function) map[string]string {
+	out := map[string]string{}
+	for k, v := range vn {
+		out[k] = v
+	}
+	firstTwo := func(fn *ssa.Function, a, b string) {
+		if fn == nil {
+			return
+		}
+		for _, r := range returnsOf(fn) {
+			if len(r.Results) < 2 {
+				continue
+			}
+			if ref, _, ok := loadedField(derefCell(resultOf(r, 0))); ok && ref.Owner == vpOwner {
+				out[a] = ref.Name
+			}
+			if ref, _, ok := loadedField(derefCell(resultOf(r, 1))); ok && ref.Owner == vpOwner {
+				out[b] = ref.Name
+			}
+		}
+	}
+	firstTwo(vp["Size"], "width", "height")
+	firstTwo(vp["GetContentSize"], "limx", "limy")
+	firstTwo(vp["GetPhysical"], "physx", "physy")
+	firstTwo(vp["GetVisible"], "viewx", "viewy")
+	if named := p.namedType(p.Views, "ViewPort"); named != nil {
+		if st, ok := named.Underlying().(*types.Struct); ok {
+			for i := 0; i < st.NumFields(); i++ {
+				if strings.HasSuffix(typeName(st.Field(i).Type()), "views.View") {
+					out["parent"] = st.Field(i).Name()
+				}
+			}
+		}
+	}
+	return out
+}
+
+// vpCanon rewrites the names in a printed value or atom to the role names the rules are written in
+// (receiver v; fields viewx, viewy, limx, limy, physx, physy, width, height, parent field v).
+func vpCanon(fn *ssa.Function, s string) string {
+	recv := "v"
+	if fn != nil && len(fn.Params) > 0 {
+		recv = fn.Params[0].Name()
+	}
+	// longest names first, through placeholders so that replacements do not chain
+	type pair struct{ from, to string }
+	var ps []pair
+	for role, actual := range vn {
+		to := "v." + role
+		if role == "parent" {
+			to = "v.v"
+		}
+		ps = append(ps, pair{recv + "." + actual, to})
+	}
+	sort.Slice(ps, func(i, j int) bool { return len(ps[i].from) > len(ps[j].from) })
+	for i, pr := range ps {
+		s = replaceWord(s, pr.from, fmt.Sprintf("\x00%d\x00", i))
+	}
+	for i, pr := range ps {
+		s = strings.ReplaceAll(s, fmt.Sprintf("\x00%d\x00", i), pr.to)
+	}
+	return s
+}
+
+// replaceWord replaces from by to where from is not followed by an identifier character.
+func replaceWord(s, from, to string) string {
+	var b strings.Builder
+	for {
+		i := strings.Index(s, from)
+		if i < 0 {
+			b.WriteString(s)
+			return b.String()
+		}
+		end := i + len(from)
+		if end < len(s) {
+			ch := s[end]
+			if ch == '_' || (ch >= '0' && ch <= '9') || (ch >= 'a' && ch <= 'z') || (ch >= 'A' && ch <= 'Z') {
+				b.WriteString(s[:end])
+				s = s[end:]
+				continue
+			}
+		}
+		b.WriteString(s[:i])
+		b.WriteString(to)
+		s = s[end:]
+	}
+}
+
+// layoutHost: fn itself, or the BoxLayout helper it calls that holds the distribution of the surplus
+// (the function that stores the cells' frac field).
+func layoutHost(p *Prog, fn *ssa.Function, cellOwner string) *ssa.Function {
+	if len(remainderCounters(fn)) > 0 {
+		return fn
+	}
+	var host *ssa.Function
+	eachInstr(fn, func(in ssa.Instruction) {
+		if cc := callCommon(in); cc != nil {
+			if h := cc.StaticCallee(); h != nil && h.Pkg == p.Views && len(h.Blocks) > 0 && len(remainderCounters(h)) > 0 {
+				host = h
+			}
+		}
+	})
+	if host != nil {
+		return host
+	}
+	return fn
+}
+
+// remainderCounters: loop-header phis that are tested `> 0` by their loop and go down by one per cycle.
+func remainderCounters(fn *ssa.Function) map[ssa.Value]bool {
+	out := map[ssa.Value]bool{}
+	for h := range loopsOf(fn) {
+		for _, in := range h.Instrs {
+			phi, ok := in.(*ssa.Phi)
+			if !ok {
+				continue
+			}
+			tested, dec := false, false
+			for _, r := range referrers(phi) {
+				if bo, isBO := r.(*ssa.BinOp); isBO && bo.Op == token.GTR && bo.X == ssa.Value(phi) && bo.Block() == h {
+					if k, isK := constInt(bo.Y); isK && k == 0 {
+						tested = true
+					}
+				}
+			}
+			for _, e := range phi.Edges {
+				if bo, isBO := e.(*ssa.BinOp); isBO && bo.Op == token.SUB && bo.X == ssa.Value(phi) {
+					if k, isK := constInt(bo.Y); isK && k == 1 {
+						dec = true
+					}
+				}
+			}
+			if tested && dec {
+				out[phi] = true
+			}
+		}
+	}
+	return out
 }
